@@ -394,7 +394,7 @@ func (v *vc) enterLoop(fr *frame, st *state, li *loopInfo, hdrEntry map[*ssa.Bas
 		for _, c := range ls.invariants {
 			se := v.newSpecEnv(fr, st, h)
 			se.overrides = env
-			t := se.evalBool(c.expr)
+			t := se.evalGoal(c.expr)
 			v.oblige(st, "inv-init", c.label, site, t, c.props)
 		}
 	}
@@ -459,7 +459,7 @@ func (v *vc) enterLoop(fr *frame, st *state, li *loopInfo, hdrEntry map[*ssa.Bas
 		for _, c := range ls.invariants {
 			se := v.newSpecEnv(fr, n, h)
 			se.overrides = henv
-			t := se.evalBool(c.expr)
+			t := se.evalAssume(c.expr)
 			v.curOrigin = "inv:" + c.label + "@" + site
 			v.fact(n, t)
 			v.curOrigin = ""
@@ -497,7 +497,7 @@ func (v *vc) checkBackEdge(fr *frame, st *state, from *ssa.BasicBlock, li *loopI
 	for _, c := range ls.invariants {
 		se := v.newSpecEnv(fr, st, h)
 		se.overrides = env
-		t := se.evalBool(c.expr)
+		t := se.evalGoal(c.expr)
 		v.oblige(st, "inv-keep", c.label, site, t, c.props)
 	}
 	if ls.decreases != nil {
@@ -687,6 +687,14 @@ func (v *vc) execAlloc(fr *frame, st *state, in *ssa.Alloc) {
 	et := in.Type().Underlying().(*types.Pointer).Elem()
 	switch u := et.Underlying().(type) {
 	case *types.Struct:
+		if !isTime(et) && !in.Heap && !ptrEscapes(in, map[ssa.Value]bool{}) {
+			// a struct temporary whose address never leaves the function: a local value, not a heap object
+			k := v.localKey(fr, in)
+			v.localSorts[k] = v.sc.sortOf(et)
+			fr.addrs[in] = &addr{kind: aLocal, key: k, typ: et}
+			st.locals[k] = v.sc.zero(et)
+			return
+		}
 		if !isTime(et) {
 			ref := v.alloc(st, in.Name())
 			v.storeStruct(st, ref, et, v.sc.zero(et))
